@@ -5,7 +5,7 @@
    used to state the round-trip theorems). *)
 From ReqV Require Import Lib.Bytes Model.H1Resp Model.H1Render Model.H1RenderHead
   Proofs.H1RespProofs Proofs.H1HeadProofs Proofs.H1MimeProofs Proofs.H1TransferProofs
-  Model.H1Conn Proofs.H1SyncProofs Proofs.H1ConnProofs Model.H1Bufio Proofs.H1BufioProofs Proofs.H1MessageProofs.
+  Model.H1Conn Proofs.H1SyncProofs Proofs.H1ConnProofs Model.H1Bufio Proofs.H1BufioProofs Proofs.H1MessageProofs Proofs.H1ChunkConverse.
 From ReqV Require Gen.H1Tables.
 From Coq Require Import Lia.
 
@@ -45,6 +45,20 @@ Theorem C04_chunked_round_trip : forall bufsize cs l0 rest,
   dechunk_all bufsize (render_chunks cs ++ l0 ++ CRLF ++ rest) = (concat (map snd cs), CEof rest).
 Proof. exact chunked_round_trip. Qed.
 Print Assumptions C04_chunked_round_trip.
+
+(* The converse: whenever the chunked reader ends a body cleanly, what it consumed WAS a
+   chunking of exactly the data it delivered (size lines ending in LF that announce the exact
+   data lengths, each data block followed by CRLF, then a zero-size line).  Nothing else is
+   ever accepted as a complete chunked body, for every buffer size and overhead state. *)
+Theorem C04_dechunk_accepts_only_chunkings : forall fuel bufsize ex s d rest,
+  dechunk fuel bufsize ex s = (d, CEof rest) ->
+  exists cs last,
+    s = flat_map seen_chunk cs ++ last ++ rest /\
+    d = concat (map snd cs) /\
+    Forall (fun c => snd c <> [] /\ announces (fst c) (N.of_nat (length (snd c)))) cs /\
+    announces last 0.
+Proof. exact dechunk_accepts_only_chunkings. Qed.
+Print Assumptions C04_dechunk_accepts_only_chunkings.
 
 (* ... in particular whenever each size line is at most 14 bytes longer than twice its data *)
 Theorem C04_chunked_round_trip_plain : forall bufsize cs l0 rest,
